@@ -9,7 +9,7 @@ For each generated tree (vlib/gen/deptree.py) and history:
     C file's mtime) = { modules whose C file is missing or strictly older than the newest file of the module's
     MODEL closure };
   * oracle (b): DependencyTree.all_dependencies(module) = files a real compile of that module opens for reading
-    (sys.addaudithook, restricted to the tree) - at the start and at the end of the history.
+    (sys.addaudithook, restricted to the tree) - at the end of the history (thorough tier: also at the start).
 """
 import os
 import shutil
@@ -244,7 +244,7 @@ def decoy_styles_naming(model, module_closure, target):
     return styles
 
 
-def run_history(part, model, steps, fresh, scratch, name, record=True):
+def run_history(part, model, steps, fresh, scratch, name, record=True, initial_depsets=True):
     """-> list of (bucket, message).  Executes on a new temp tree under scratch."""
     import copy
     model = copy.deepcopy(model)
@@ -258,7 +258,8 @@ def run_history(part, model, steps, fresh, scratch, name, record=True):
         nt_indirect = False
         has_decoy = any(s.get("decoys") for s in model["files"].values())
         # (b) at the start, then initial build + steps, then (b) again
-        problems += check_depsets(part, st, fresh, scratch, "initial", record)
+        if initial_depsets:
+            problems += check_depsets(part, st, fresh, scratch, "initial", record)
         for si, ops in enumerate([[]] + list(steps)):
             for op in ops:
                 desc = apply_op(st, op)
@@ -373,7 +374,7 @@ def check_depsets(part, st, fresh, scratch, when, record):
 # --------------------------------------------------------------------------- shards
 
 def _shard(arg):
-    seed, shard, count = arg
+    seed, shard, count, initial_depsets = arg
     tree.activate_view()
     part = harness.Part()
     special = SPECIALS[shard % len(SPECIALS)]
@@ -383,7 +384,7 @@ def _shard(arg):
     drawn = hyp.draw_many(deptree.histories(special), count + 1, seed, "c46f", shard)[1:]
     for n, (model, steps) in enumerate(drawn):
         fresh = ((shard * count + n) % 16 == 15)       # every 16th history: brand-new interpreter per step
-        problems = run_history(part, model, steps, fresh, scratch, "h%d" % n)
+        problems = run_history(part, model, steps, fresh, scratch, "h%d" % n, initial_depsets=initial_depsets)
         if any(b == "__discard__" for b, _ in problems):
             continue
         part.count("histories_run")
@@ -398,9 +399,10 @@ def _shard(arg):
 
 
 def run(ctx):
-    count = 2 if ctx.quick else 60
+    count = 1 if ctx.quick else 60
     before = ctx.evaluations
-    ctx.pmap(_shard, [(ctx.seed, i, count) for i in range(16)])
+    # quick: 16 histories, dependency sets compared at the end of each; thorough: 960 histories, start and end
+    ctx.pmap(_shard, [(ctx.seed, i, count, not ctx.quick) for i in range(16)])
     ctx.extra["file_level_evaluations"] = int(ctx.evaluations - before)
     # one case per bucket (first in shard order)
     seen, keep = set(), []
@@ -415,8 +417,8 @@ def run(ctx):
             "optional package with two member .pxd, .pxi includes (nested, with cimports inside), cimport cycles among "
             ".pxd; real statements spelled plain / tab / from / parenthesised / continuation line / 'cimport a, b' / "
             "dotted / relative / cython.cimports; decoy statements naming existing files hidden in strings, triple-quoted "
-            "and raw strings, f-strings, continued strings, docstrings and comments; histories of an initial build and "
-            "2-3 steps of 1-2 ops from {touch, edit, touch-to-tie, delete C file, add cimport, remove dependency, add "
+            "and raw strings, f-strings, continued strings, docstrings and comments; histories of an initial build, "
+            "a closing tie probe and 2-3 steps of 1-2 ops from {touch, edit, touch-to-tie, delete C file, add cimport, remove dependency, add "
             "decoy} each followed by cythonize in a fresh state. One evaluation = one (step, module) rebuild decision or "
             "one (module) dependency-set comparison. Non-trivial = the history touches/edits a file at distance >= 2 from "
             "a module or the sources contain a decoy (decisions); closure of >= 4 files (dependency sets)")
